@@ -118,3 +118,75 @@ pub struct U<'a> {
 
 #[derive(SystemData)]
 pub struct TupleNested<'a>((Read<'a, R1>, (Write<'a, R2>, Option<Read<'a, R3>>)), T1<'a>);
+
+/// wide inputs: a macro bug that depends on the number or position of fields shows here
+#[derive(SystemData)]
+pub struct D12<'a> {
+    f0: Read<'a, R1>,
+    f1: Write<'a, R2>,
+    f2: Option<Read<'a, R3>>,
+    f3: Option<Write<'a, R4>>,
+    f4: ReadExpect<'a, R5>,
+    f5: PhantomData<R6>,
+    f6: Read<'a, R7>,
+    f7: Write<'a, R8>,
+    f8: Option<Read<'a, R1>>,
+    f9: Option<Write<'a, R2>>,
+    f10: ReadExpect<'a, R3>,
+    f11: PhantomData<R4>,
+}
+
+#[derive(SystemData)]
+pub struct D26<'a> {
+    f0: Read<'a, R1>,
+    f1: Write<'a, R2>,
+    f2: Option<Read<'a, R3>>,
+    f3: Option<Write<'a, R4>>,
+    f4: ReadExpect<'a, R5>,
+    f5: PhantomData<R6>,
+    f6: Read<'a, R7>,
+    f7: Write<'a, R8>,
+    f8: Option<Read<'a, R1>>,
+    f9: Option<Write<'a, R2>>,
+    f10: ReadExpect<'a, R3>,
+    f11: PhantomData<R4>,
+    f12: Read<'a, R5>,
+    f13: Write<'a, R6>,
+    f14: Option<Read<'a, R7>>,
+    f15: Option<Write<'a, R8>>,
+    f16: ReadExpect<'a, R1>,
+    f17: PhantomData<R2>,
+    f18: Read<'a, R3>,
+    f19: Write<'a, R4>,
+    f20: Option<Read<'a, R5>>,
+    f21: Option<Write<'a, R6>>,
+    f22: ReadExpect<'a, R7>,
+    f23: PhantomData<R8>,
+    f24: Read<'a, R1>,
+    f25: Write<'a, R2>,
+}
+
+#[derive(SystemData)]
+pub struct T9<'a>(
+    Read<'a, R1>,
+    PhantomData<R2>,
+    ReadExpect<'a, R3>,
+    Option<Write<'a, R4>>,
+    Option<Read<'a, R5>>,
+    Write<'a, R6>,
+    Read<'a, R7>,
+    PhantomData<R8>,
+    ReadExpect<'a, R1>,
+);
+
+
+/// a type parameter used directly as a field type, instantiated with borrowing data by the user
+#[derive(SystemData)]
+pub struct Extra<'a, T: SystemData<'a>> {
+    base: Read<'a, R1>,
+    extra: T,
+}
+
+pub fn instantiate_extra<'a>(w: &'a World) -> Extra<'a, (Write<'a, R2>, Option<Read<'a, R3>>)> {
+    SystemData::fetch(w)
+}
